@@ -139,7 +139,7 @@ func c05guard(p *Program, r *Report, env *lockEnv, rule string, only map[string]
 				if reason, ex := guardExceptions[fname+"|"+g.Field]; ex && reason != "" {
 					// exception applies only to the constructor caller: all other callers must hold the lock
 					okAll := true
-					for _, cs := range la.callersOf[fa.Fn] {
+					for _, cs := range la.callersOf[p.ownerFunc(fa.Fn)] {
 						if constructorFns[p.FuncName(cs.in)] {
 							continue
 						}
@@ -251,7 +251,7 @@ func c05emitlock(p *Program, r *Report, env *lockEnv, rule string) {
 	wf := p.Func("Conn.writeFrame")
 	nrel := 0
 	for _, op := range la.releases {
-		if op.Fn == wf && op.Lock == "Conn.writeFrameMu" {
+		if wf != nil && p.FuncName(op.Fn) == "Conn.writeFrame" && op.Lock == "Conn.writeFrameMu" {
 			nrel++
 			r.Check(rule+".section", "Conn.writeFrame", "release of writeFrameMu", p.InstrPos(op.Instr), op.Defer, "writeFrame releases writeFrameMu only through its deferred unlock: header, payload and flush are one uninterrupted critical section", fmt.Sprintf("deferred=%v", op.Defer))
 		}
@@ -322,7 +322,7 @@ func c05msglock(p *Program, r *Report, rule string) {
 		switch cs.Name {
 		case "mu.lock", "mu.forceLock", "mu.tryLock":
 			if f := p.FieldOpt("msgWriter.mu"); f != nil && derivesFromField(cs.Instr.Common().Args[0], f) {
-				r.Check(rule+".acquire", p.FuncName(cs.Fn), cs.Name+"(msgWriter.mu)", p.InstrPos(cs.Instr), cs.Fn == reset && cs.Name == "mu.lock", "the message lock is acquired only by msgWriter.reset", "acquired in "+p.FuncName(cs.Fn))
+				r.Check(rule+".acquire", p.FuncName(cs.Fn), cs.Name+"(msgWriter.mu)", p.InstrPos(cs.Instr), reset != nil && p.FuncName(cs.Fn) == "msgWriter.reset" && cs.Name == "mu.lock", "the message lock is acquired only by msgWriter.reset", "acquired in "+p.FuncName(cs.Fn))
 			}
 		}
 	}
@@ -519,6 +519,12 @@ func c05noreacquire(p *Program, r *Report, env *lockEnv, rule string) {
 					case opAcquire, opAcquireOnNil:
 						if k := la.lockKey(ci.Common().Args[0]); k != "" && !strings.HasPrefix(k, "param:") && !strings.HasPrefix(k, "G:") {
 							direct[fn] |= la.bit(k)
+							if _, isDefer := in.(*ssa.Defer); !isDefer {
+								if h := la.HeldAt(in); h != topLocks && la.Has(h, k) {
+									r.Check(rule, p.FuncName(fn), "acquire "+k+" while holding it", p.InstrPos(in), false,
+										"no call made while holding a non-reentrant mutex synchronously reaches an acquisition of the same mutex", p.FuncName(fn)+" acquires "+k+" which it already holds")
+								}
+							}
 						}
 					}
 				}
@@ -563,7 +569,9 @@ func c05noreacquire(p *Program, r *Report, env *lockEnv, rule string) {
 			if held == topLocks {
 				continue
 			}
-			bad := held & reach[e.To]
+			// a callee that releases l for its caller (a release wrapper, or a helper extracted from one) is entered with l held
+			// by design; what it reaches while it still holds l is examined at its own call edges and acquisitions
+			bad := held & reach[e.To] &^ la.rel[e.To]
 			if bad == 0 {
 				n++
 				continue
